@@ -200,7 +200,11 @@ def run(ctx, rep: Report, deep: bool = False):
                 # S189: empty and blank-only lines between the tracks (ripping tools separate tracks that way)
                 lines += [["\n"], ["   \n"], ["\n", "\t\n"]][len(firsts) % 3]
                 rep.feat("blank_lines_between_tracks")
-            lines.append(f"  TRACK {k:02d} AUDIO\n")
+            # S201: the mode word in lower / mixed case, as some burning tools write it (every keyword is matched without regard to case)
+            mode_word = ["AUDIO", "audio", "Audio"][(i // 10) % 3] if i % 10 == 7 else "AUDIO"
+            lines.append(f"  TRACK {k:02d} {mode_word}\n")
+            if mode_word != "AUDIO":
+                rep.feat("mode_word_not_upper_case")
             if i % 10 == 3 and nt >= 2 and len(titles) < 2:
                 # S150: two tracks whose titles differ only in a final L / R - CD tracks are stereo already and must
                 # be written one by one
@@ -270,7 +274,7 @@ def run(ctx, rep: Report, deep: bool = False):
         rep.feat("odd_sheets")
     if ctx.model_available:
         compare_family(rep, "cdda", [c for c in cases if c.impl != "skip"], nontrivial=lambda c: c.impl.count(";") >= 2)
-    rep.required_features = ["pairs_exported", "multi_track", "odd_sheets", "tail_2352", "tail_3", "track_numbers_out_of_order", "tracks_100_minutes_and_more", "titles_that_look_like_a_pair", "duplicate_titles", "sheet_longer_than_4k", "blank_lines_between_tracks"]
+    rep.required_features = ["pairs_exported", "multi_track", "odd_sheets", "tail_2352", "tail_3", "track_numbers_out_of_order", "tracks_100_minutes_and_more", "titles_that_look_like_a_pair", "duplicate_titles", "sheet_longer_than_4k", "blank_lines_between_tracks", "mode_word_not_upper_case"]
 
 
 def search(ctx, rep: Report):
